@@ -2,7 +2,7 @@
 the same typing table (contracts/typing_table.py).  Runs under python3-vt
 (ddSMT is pure standard library).  For every schema, every small assignment
 of widths / indices and every choice of operand kind -- a declared variable,
-or an application of a declared function whose sort ddSMT cannot infer --
+or that variable under an annotation, whose sort ddSMT cannot infer --
 the real collect_information + get_sort + get_bv_width are run on a
 well-sorted script and compared with the table.
 
@@ -24,6 +24,9 @@ from ddsmt.nodes import Node  # noqa: E402
 options.args()
 
 
+OPAQUE = {'n': 0, 'unknown': 0}
+
+
 class Retry(Exception):
     pass
 
@@ -40,6 +43,7 @@ class NCtx:
         self.used_ints = 0
         self.used_ops = 0
         self.sort_decls = set()
+        self.opaque = []
 
     def fresh_pos(self, name, lo=1):
         if self.used_ints >= len(self.ints):
@@ -128,10 +132,12 @@ class NCtx:
         self.decls.append(['declare-const', v, self.sort_node(sort)])
         if kind == 'var':
             return v
-        f = f'uf{self.nvars}'
-        sn = self.sort_node(sort)
-        self.decls.append(['declare-fun', f, [sn], sn])
-        return [f, v]
+        # a well-sorted term of this sort that ddSMT cannot type: the
+        # variable under an annotation (an application of a declared
+        # function no longer is one - its declaration is consulted)
+        t = ['!', v, ':named', f'n{self.nvars}']
+        self.opaque.append(t)
+        return t
 
 
 def build(pl):
@@ -147,6 +153,72 @@ def plain(n):
 def sexpr(pl):
     return pl if isinstance(pl, str) else '(' + ' '.join(
         sexpr(c) for c in pl) + ')'
+
+
+def names_outside_the_theories():
+    """Operator names the real get_sort / get_bv_width tables mention that
+    are not symbols of any theory C16 lists (read off the source, compared
+    with the typing table): a well-sorted input may declare them itself."""
+    import ast
+    import re
+    src = open(os.path.join(REPO, 'ddsmt', 'smtlib.py')).read()
+    consts = set()
+    for fn in ast.parse(src).body:
+        if isinstance(fn, ast.FunctionDef) and fn.name in (
+                '_get_sort_aux', 'get_bv_width'):
+            for n in ast.walk(fn):
+                if isinstance(n, ast.Constant) and isinstance(n.value, str):
+                    consts.add(n.value)
+    theory = {re.sub(r'(/[0-9]+)?(\[.*\])?$', '', k)
+              for k in {**table(), **leaf_table()}}
+    theory |= {'ite', 'to_fp', '>=', 'true', 'false', 'Bool', 'Int', 'Real',
+               'String', 'BitVec', 'FloatingPoint', 'Array', 'RoundingMode',
+               'RegLan', '_', 'let', 'forall', 'exists'}
+    simple = re.compile(r'^[A-Za-z~!@$%^&*_+=<>.?/-][A-Za-z0-9~!@$%^&*_+=<>.?/-]*$')
+    return sorted(c for c in consts - theory if simple.match(c))
+
+
+def check_user_functions(rec):
+    """A function the input declares itself under a name that ddSMT's
+    operator tables know from elsewhere: the declaration decides."""
+    B4 = ['_', 'BitVec', '4']
+    B3 = ['_', 'BitVec', '3']
+    sigs = [(['Int', 'Int'], 'Int'), (['Int'], 'Bool'), (['Int', 'Int'],
+            'Bool'), ([B4, B4], 'Bool'), ([B4, B4], B3), (['Int'], B3),
+            (['Bool', 'Bool'], 'Real')]
+    for name in names_outside_the_theories():
+        for args, res in sigs:
+            decls = [['declare-fun', name, args, res]]
+            ops = []
+            for i, a in enumerate(args):
+                decls.append(['declare-const', f'v{i}', a])
+                ops.append(f'v{i}')
+            term = [name] + ops
+            script = decls + [['define-fun', 'the-term', [], res, term]]
+            exprs = [build(x) for x in script]
+            tnode = exprs[-1][4]
+            smtlib.collect_information(exprs)
+            case = {'declared-name': name, 'script': ' '.join(
+                sexpr(x) for x in script)}
+            rec.case(('user-fun', name, sexpr(args), sexpr(res)), case)
+            N = f'C16/native/declared-function[{name}]'
+            try:
+                got = smtlib.get_sort(tnode)
+                gw = smtlib.get_bv_width(tnode)
+            except Exception as e:  # noqa
+                rec.violation(f'{N}/raises-nothing', case,
+                              f'{type(e).__name__}: {e}')
+                continue
+            if got is not None and plain(got) != res:
+                rec.violation(f'{N}/sort-unknown-or-right', case,
+                              f'get_sort gives {sexpr(plain(got))}, the '
+                              f'input declares {name} with result sort '
+                              f'{sexpr(res)}')
+            w = int(res[2]) if isinstance(res, list) else None
+            if gw != -1 and gw != w:
+                rec.violation(f'{N}/width-unknown-or-right', case,
+                              f'get_bv_width gives {gw}, the input declares '
+                              f'{name} with result sort {sexpr(res)}')
 
 
 def main():
@@ -177,6 +249,12 @@ def main():
                 case = {'schema': name, 'script': ' '.join(
                     sexpr(x) for x in script)}
                 rec.case((name, key), case)
+                for t in c.opaque:
+                    # vacuity guard: the 'unknown' paths are only exercised
+                    # if these operands really are of unknown sort
+                    OPAQUE['n'] += 1
+                    if smtlib.get_sort(build(t)) is None:
+                        OPAQUE['unknown'] += 1
                 try:
                     got = smtlib.get_sort(tnode)
                     gw = smtlib.get_bv_width(tnode)
@@ -197,6 +275,12 @@ def main():
                         + (f'width {w}' if w is not None else
                            'no bit-vector sort'))
     check_datatypes(rec)
+    check_user_functions(rec)
+    if OPAQUE['n'] == 0 or OPAQUE['unknown'] != OPAQUE['n']:
+        # not a property violation: the harness lost its unknown operands
+        print(f'CHECKER-PROBLEM: {OPAQUE["unknown"]} of {OPAQUE["n"]} opaque '
+              'operands are of unknown sort to ddSMT', file=sys.stderr)
+        sys.exit(3)
     rec.finish()
 
 
